@@ -213,6 +213,9 @@ Definition sort_entries (l : list entry) : list entry := fold_left (fun acc e =>
 Record c11case := mk_c11case { u_a : xa; u_b : xa; u_ab : xa; u_rho : list (N * N); u_renamed : xa }.
 Definition check_c11 (c : c11case) : N :=
   if (xa_class (u_a c) =? 2) || (xa_class (u_b c) =? 2) || (xa_class (u_ab c) =? 2) || (xa_class (u_renamed c) =? 2) then 78
+  (* a fragment whose analysis fails on its own although it succeeds once unrelated code is added: the unrelated
+     code influenced it (class 1 = structured error; budget exhaustion, class 3, is not compared) *)
+  else if (xa_class (u_ab c) =? 0) && ((xa_class (u_a c) =? 1) || (xa_class (u_b c) =? 1)) then 79
   else if negb ((xa_class (u_a c) =? 0) && (xa_class (u_b c) =? 0)) then 0
   else if negb (xa_class (u_ab c) =? 0) then 76
   else if negb (layout_eqb (xa_layout (u_ab c)) (sort_entries (xa_layout (u_a c) ++ xa_layout (u_b c)))) then 76
